@@ -101,3 +101,76 @@ theorem runLoop_moreI (m : Machine σ) (b : Buf) (Inv : Nat → σ → Prop) (J 
         · cases h
 
 end Sipsp
+
+namespace Sipsp
+
+variable {σ : Type}
+
+/-- **L2 (generic, with a re-entry map)**: the caller re-enters with `g st'` (e.g. a write-only bookkeeping
+    field cleared); the resumed run equals the fresh run. -/
+theorem runLoop_resumeG (m : Machine σ) (b s : Buf) (Inv : Nat → σ → Prop) (g : σ → σ)
+    (hic : InvCont m b Inv) (hst : StepStableI m b s Inv)
+    (hre : ∀ i c st o st', b[i]? = some c → Inv i st → m.step b i c st = .done o .moreBytes st' →
+      runLoop m (b ++ s) o (g st') = runLoop m (b ++ s) i st)
+    (hee : ∀ i st o st', b[i]? = none → Inv i st → m.eob b i st = (o, Err.moreBytes, st') →
+      runLoop m (b ++ s) o (g st') = runLoop m (b ++ s) i st)
+    (i : Nat) (st : σ) (h0 : Inv i st) {o : Nat} {st' : σ}
+    (h : runLoop m b i st = (o, Err.moreBytes, st')) :
+    runLoop m (b ++ s) o (g st') = runLoop m (b ++ s) i st := by
+  induction hk : b.size - i using Nat.strongRecOn generalizing i st with
+  | _ k ih =>
+    cases hb : b[i]? with
+    | none =>
+      rw [runLoop_none m st hb] at h
+      exact hee i st o st' hb h0 h
+    | some c =>
+      cases hs : m.step b i c st with
+      | done o1 e1 st1 =>
+        rw [runLoop_done m hb hs] at h; cases h
+        exact hre i c st o st' hb h0 hs
+      | cont i' st1 =>
+        rw [runLoop_cont m hb hs] at h
+        have hsB := (hst i c st hb h0 (by intro o' s' hh; rw [hs] at hh; cases hh)).trans hs
+        rw [runLoop_cont m (get?_app hb) hsB]
+        split at h
+        · rename_i hlt
+          rw [if_pos hlt]
+          have := get?_lt hb
+          exact ih (b.size - i') (by omega) i' st1 (hic i c st i' st1 hb h0 hs hlt) h rfl
+        · cases h
+
+/-- **L2 (generic, relational)**: as `runLoop_resumeG`, for any relation `R` between the resumed and the
+    fresh result (e.g. equality up to write-only bookkeeping of a nested parser on error verdicts). -/
+theorem runLoop_resumeR (m : Machine σ) (b s : Buf) (Inv : Nat → σ → Prop) (g : σ → σ)
+    (R : Nat × Err × σ → Nat × Err × σ → Prop)
+    (hic : InvCont m b Inv) (hst : StepStableI m b s Inv)
+    (hre : ∀ i c st o st', b[i]? = some c → Inv i st → m.step b i c st = .done o .moreBytes st' →
+      R (runLoop m (b ++ s) o (g st')) (runLoop m (b ++ s) i st))
+    (hee : ∀ i st o st', b[i]? = none → Inv i st → m.eob b i st = (o, Err.moreBytes, st') →
+      R (runLoop m (b ++ s) o (g st')) (runLoop m (b ++ s) i st))
+    (i : Nat) (st : σ) (h0 : Inv i st) {o : Nat} {st' : σ}
+    (h : runLoop m b i st = (o, Err.moreBytes, st')) :
+    R (runLoop m (b ++ s) o (g st')) (runLoop m (b ++ s) i st) := by
+  induction hk : b.size - i using Nat.strongRecOn generalizing i st with
+  | _ k ih =>
+    cases hb : b[i]? with
+    | none =>
+      rw [runLoop_none m st hb] at h
+      exact hee i st o st' hb h0 h
+    | some c =>
+      cases hs : m.step b i c st with
+      | done o1 e1 st1 =>
+        rw [runLoop_done m hb hs] at h; cases h
+        exact hre i c st o st' hb h0 hs
+      | cont i' st1 =>
+        rw [runLoop_cont m hb hs] at h
+        have hsB := (hst i c st hb h0 (by intro o' s' hh; rw [hs] at hh; cases hh)).trans hs
+        rw [runLoop_cont m (get?_app hb) hsB]
+        split at h
+        · rename_i hlt
+          rw [if_pos hlt]
+          have := get?_lt hb
+          exact ih (b.size - i') (by omega) i' st1 (hic i c st i' st1 hb h0 hs hlt) h rfl
+        · cases h
+
+end Sipsp
